@@ -529,7 +529,10 @@ public:
    */
   static double qGamma(double prob, double alpha, double beta)
   {
-    return qChisq(prob, 2.0 * (alpha)) / (2.0 * (beta));
+    double q = qChisq(prob, 2.0 * (alpha));
+    if (q < 0)
+      return q; // error signal of qChisq, not to be rescaled
+    return q / (2.0 * (beta));
   }
 
   /**
